@@ -485,6 +485,29 @@ func tagOf(n *node, msg *pubsub.Message) string {
 func (n *node) do(o M, nextCtx context.Context) string {
 	t := gets(o, "t")
 	hi, si, ri, ei := geti(o, "h", 0)-1, geti(o, "s", 0)-1, geti(o, "r", 0)-1, geti(o, "e", 0)-1
+	// the scenario was generated on the reference machine: when the node has diverged from it (an earlier line says so)
+	// an operation can refer to an object the node never handed out
+	n.objMu.Lock()
+	nh, ns, nr, ne := len(n.hs), len(n.ss), len(n.rs), len(n.es)
+	n.objMu.Unlock()
+	switch gets(o, "o") {
+	case "close", "sub", "relay", "evh", "pub", "addb", "lp", "str", "score":
+		if hi < 0 || hi >= nh {
+			return "no-such-object"
+		}
+	case "cancel", "next":
+		if si < 0 || si >= ns {
+			return "no-such-object"
+		}
+	case "unrelay":
+		if ri < 0 || ri >= nr {
+			return "no-such-object"
+		}
+	case "evcancel":
+		if ei < 0 || ei >= ne {
+			return "no-such-object"
+		}
+	}
 	switch gets(o, "o") {
 	case "join":
 		var opts []pubsub.TopicOpt
@@ -752,6 +775,7 @@ func (r *seqRun) runSeq(s scenario) bool {
 			line["st"] = M{"reg": []bool{}, "subs": []int{}, "rel": []int{}, "evh": []int{}, "gt": []bool{}, "extra": []string{"hung"}}
 			r.out.Emit(line)
 			ok = false
+			hungScenarios++
 			break
 		}
 		settle()
@@ -828,10 +852,18 @@ func seqChunk(t *testing.T, out *vh.Out, scns []scenario, from int, max int) (ne
 	return next
 }
 
+// hungScenarios counts the scenarios of this process in which a call never returned
+var hungScenarios int
+
 func TestX09Seq(t *testing.T) {
 	scns := vh.ReadScenarios[scenario](t, "VERIF_IN")
 	out := vh.NewOut(t, "VERIF_OUT")
 	for i := 0; i < len(scns); {
 		i = seqChunk(t, out, scns, i, 512)
+		if hungScenarios >= 8 {
+			// every one of them costs a bubble (and leaves its goroutines behind): the point is made
+			out.Emit(M{"e": "giveup", "at": i, "hung": hungScenarios})
+			break
+		}
 	}
 }
